@@ -63,7 +63,7 @@ def consistent_reach(body, defs, constraints):
     return reachable(body, removed)
 
 
-def run(F, parts=None):
+def run(F, parts=None, scopes=None):
     out = []
     if parts is None or "wrapper" in parts:
         out.append(wrapper(F))
@@ -73,6 +73,8 @@ def run(F, parts=None):
         out.append(selector(F))
     if parts is None or "identifier" in parts:
         out.append(identifier(F))
+    if parts is not None and "selector_constants" in parts:
+        out.append(selector_constants(F, scopes))
     return out
 
 
@@ -486,6 +488,57 @@ def _callees_behind(F, body, defs, op, limit=600):
                     if o.get("k") in ("copy", "move"):
                         work.append(o["place"]["l"])
     return names
+
+
+# ------------------------------------------------------------------ (c') selector constants
+RESIDUAL_USERS = {   # reviewed getters that evaluate a part with Contributions::Residual: function suffix -> number of such literals
+    "state::State<E>>::residual_gibbs_energy": 1,     # G_res = A_res + p_res V - N R T ln Z (Z from the total pressure)
+    "state::State<E>>::dln_phi_dnj": 1,               # d mu_res / d n at constant T, V; the p-derivatives are total
+    "state::State<E>>::residual_enthalpy": 1,         # H_res = A_res + T S_res + p_res V
+}
+
+
+def selector_constants(F, scopes=None):
+    """every literal contribution selector in library code is `Total`; `Residual` literals occur only in the three reviewed residual
+    getters (exact counts), `IdealGas` literals nowhere: an equilibrium condition, a data-set prediction or a DFT bulk property
+    evaluated with a fixed non-Total selector silently drops the ideal-gas or the residual part"""
+    r = RuleResult("R10f", "FWD: literal contribution selectors are Total (Residual only in the reviewed residual getters)")
+    n = 0
+    per_fn = {}
+    for b in F.bodies:
+        if "::tests::" in b.path or b.path.startswith("feos_core::validate"):
+            continue
+        fn = b.path.split("::{closure")[0]
+        if scopes and not any(s_ in fn for s_ in scopes):
+            continue
+        for bi, si, st in b.stmts():
+            rv = st["rv"]
+            if not (rv["k"] == "agg" and str(rv["kind"].get("adt", "")).endswith("state::Contributions")):
+                continue
+            n += 1
+            per_fn.setdefault(fn, []).append((rv["kind"].get("variant"), st.get("span", b.file_line())))
+    for fn, lits in sorted(per_fn.items()):
+        allowed_res = 0
+        for suf, k in RESIDUAL_USERS.items():
+            if fn.endswith(suf):
+                allowed_res = k
+        non_total = [(v, sp) for v, sp in lits if v != "Total"]
+        res = [x for x in non_total if x[0] == "Residual"]
+        other = [x for x in non_total if x[0] != "Residual"]
+        iid = "selector|const|%s" % fn
+        if other or len(res) != allowed_res:
+            where = (other or res or lits)[0][1]
+            r.inst(iid, where, "violation", literals=[v for v, _ in lits])
+            r.fail("%s|%s" % (iid, ",".join(sorted(v for v, _ in non_total)) or "Total"), where,
+                   "%s uses the literal selectors %s (reviewed: %d Residual, otherwise Total): a part of the property is evaluated with a fixed "
+                   "contribution that drops or adds the ideal-gas / residual part" % (fn, [v for v, _ in lits], allowed_res))
+        else:
+            r.inst(iid, lits[0][1], "ok", nontrivial=bool(allowed_res), literals=len(lits))
+    r.inst("selector|const|census", "-", "ok", literal_selectors=n, nontrivial=n > 0)
+    if scopes is None:
+        r.floor("literal contribution selectors", n, 90)
+    r.exhaustive = True
+    return r
 
 
 # ------------------------------------------------------------------ (d)
